@@ -2218,7 +2218,14 @@ def compare_array(ctx, snap, tag):
         return False
     if snap['qtotal'].size:
         ok = ctx.prove_eq(np.asarray(a.qtotal), snap['qtotal'], f'{tag}: qtotal unchanged')
-    return bool(ctx.prove_eq(a.to_ndarray(), snap['dense'], f'{tag}: values unchanged')) and bool(ok)
+    try:
+        now = a.to_ndarray()
+    except Exception as e:  # noqa  (block bookkeeping of the object destroyed)
+        if type(e).__name__ in ('SymLeak', 'RecursionError'):
+            raise
+        ctx.fail(f'{tag}: values unchanged (object can no longer be converted to a dense array)', f'{type(e).__name__}: {str(e)[:120]}')
+        return False
+    return bool(ctx.prove_eq(now, snap['dense'], f'{tag}: values unchanged')) and bool(ok)
 
 
 def _first_positions(ctx, R, W, want_outside=True):
